@@ -29,11 +29,12 @@ type httpSpec struct {
 	Body     string `json:"body"`      // action list
 	BodyKind int    `json:"body_kind"` // 0 put(id) 1 invalid action 2 empty 3 body with an embedded CRLF 4 process-executing action + put(id)
 	ID       int    `json:"id"`
-	Frags    []int  `json:"frags"`           // fragment sizes (cycled); empty = all at once
-	GapsMs   []int  `json:"gaps_ms"`         // pause before each fragment
-	CloseAt  int    `json:"close_at"`        // close the connection after this many bytes (0 = read the response)
-	Wait     bool   `json:"wait"`            // wait for this exchange to end before the next event
-	Probe    bool   `json:"probe,omitempty"` // sent while the UI is busy and the hand-over queue is full: still to be answered soon
+	Frags    []int  `json:"frags"`              // fragment sizes (cycled); empty = all at once
+	GapsMs   []int  `json:"gaps_ms"`            // pause before each fragment
+	CloseAt  int    `json:"close_at"`           // close the connection after this many bytes (0 = read the response)
+	Wait     bool   `json:"wait"`               // wait for this exchange to end before the next event
+	Probe    bool   `json:"probe,omitempty"`    // sent while the UI is busy and the hand-over queue is full: still to be answered soon
+	StallMs  int    `json:"stall_ms,omitempty"` // the client sends its request and then does not read for this long
 }
 
 const c16Key = "s3cr3t-Key"
@@ -72,6 +73,9 @@ func (h *httpSpec) build(keyConfigured bool) (req []byte, class string, authoris
 	switch bk := h.bodyKind(); bk {
 	case 0:
 		body = "put(" + h.marker() + ")"
+		if h.CloseAt < 0 {
+			body += "+up"
+		}
 	case 1:
 		body = "no-such-action(" + h.marker() + ")"
 	case 3:
@@ -79,7 +83,7 @@ func (h *httpSpec) build(keyConfigured bool) (req []byte, class string, authoris
 	default:
 		if bk >= 4 {
 			// every action that runs a command (a non-local listener drops them unless --listen-unsafe)
-			body = c16ExecActions[bk-4] + "(EX 9)+put(" + h.marker() + ")"
+			body = c16ExecActions[bk-4] + "(EX 9)+execute-silent(EX 8)+put(" + h.marker() + ")"
 		}
 	}
 	valid := true
@@ -149,10 +153,13 @@ type c16Plan struct {
 	HTTP   []httpSpec `json:"http"` // referenced by events of kind "http" through ev.Cols (index)
 	Addr   string     `json:"addr"`
 	UseKey bool       `json:"use_key"`
+	// SockBuf: socket buffers hold this many bytes of response (0: everything): a client that does not read
+	// makes the server's write wait
+	SockBuf int `json:"sock_buf,omitempty"`
 	// KeyBlank: FZF_API_KEY consists of white space only. That is a key (fzf starts on a non-local address),
 	// and no request can present it: a header value never begins or ends with white space
 	KeyBlank bool `json:"key_blank,omitempty"`
-	Unsafe bool       `json:"unsafe"`
+	Unsafe   bool `json:"unsafe"`
 	// UnsafeFirst: `--listen-unsafe ADDR0 --listen ADDR` – the later plain --listen wins, so the listener is not unsafe
 	UnsafeFirst bool `json:"unsafe_first"`
 }
@@ -207,6 +214,11 @@ func genHTTPSpec(r *zsim.Rng, id int) httpSpec {
 	}
 	if r.Chance(1, 8) {
 		h.CloseAt = r.Range(1, 80)
+		if h.Method == "POST" && h.bodyKind() == 0 && r.Bool() {
+			// the connection is closed when all but the last action of the list has been sent: what has arrived
+			// is a well-formed list of its own, but not the request
+			h.CloseAt = -1
+		}
 	}
 	h.Wait = r.Chance(1, 2)
 	return h
@@ -258,6 +270,23 @@ func genC16Plan(r *zsim.Rng) *c16Plan {
 		p.Events = append(p.Events, sysEvent{Kind: "http", Cols: n, DelayMs: 100})
 		n++
 	}
+	// Targeted mode: a client asks for the state - a response larger than the socket buffers - and does not
+	// read it. The server may give up on that client; it must go on answering the others.
+	if r.Chance(1, 12) {
+		p.Addr = "localhost:6266"
+		p.UseKey, p.KeyBlank, p.Unsafe, p.UnsafeFirst = false, false, false, false
+		p.Lines.N = r.Range(120, 400)
+		p.SockBuf = []int{256, 1024, 4096}[r.Intn(3)]
+		p.HTTP, p.Events = nil, []sysEvent{{Kind: "settle"}}
+		p.HTTP = append(p.HTTP, httpSpec{ID: 0, Method: "GET", Path: "/", Version: "HTTP/1.1", StallMs: r.Range(60000, 200000)})
+		p.Events = append(p.Events, sysEvent{Kind: "http", Cols: 0})
+		n = 1
+		for k := r.Range(1, 3); k > 0; k-- {
+			p.HTTP = append(p.HTTP, httpSpec{ID: n, Method: pick(r, "GET", "POST"), Path: "/", Version: "HTTP/1.1", Wait: true, Probe: true})
+			p.Events = append(p.Events, sysEvent{Kind: "http", Cols: n, DelayMs: r.Range(200, 3000)})
+			n++
+		}
+	}
 	// while the UI is busy: a POST that runs a slow foreground-ish command, then more requests
 	if r.Chance(1, 4) && len(p.Procs) == 0 {
 		p.Procs = append(p.Procs, procSpec{DelaysMs: []int{r.Range(500, 4000)}})
@@ -288,7 +317,8 @@ func runC16(c *runCtx) {
 	defer func() { sp.Args = sp.Args[nExtra:] }()
 	r := newSysRun(c, sp)
 	nw := simnet.New()
-	defer func() { simnet.Cur = nil }()
+	simnet.SockBuf = clampInt(plan.SockBuf, 0, 1<<20)
+	defer func() { simnet.Cur = nil; simnet.SockBuf = 0 }()
 	oldKey, hadKey := os.LookupEnv("FZF_API_KEY")
 	if plan.UseKey && plan.KeyBlank {
 		os.Setenv("FZF_API_KEY", " \t  ")
@@ -356,8 +386,12 @@ func runC16(c *runCtx) {
 					}
 					c.count("fault.http_fragment", 1)
 				}
-				if spec.CloseAt > 0 && spec.CloseAt < len(req) && sent+n >= spec.CloseAt {
-					n = spec.CloseAt - sent
+				closeAt := spec.CloseAt
+				if closeAt < 0 {
+					closeAt = len(req) - len("+up")
+				}
+				if closeAt > 0 && closeAt < len(req) && sent+n >= closeAt {
+					n = closeAt - sent
 					if n > 0 {
 						conn.Write(req[sent : sent+n])
 					}
@@ -373,6 +407,11 @@ func runC16(c *runCtx) {
 				k++
 			}
 			res.sentAll = sent == len(req)
+			if spec.StallMs > 0 {
+				// a client that has gone to sleep with the connection open
+				time.Sleep(time.Duration(clampInt(spec.StallMs, 0, 600000)) * time.Millisecond)
+				c.count("fault.http_client_stalls_before_reading", 1)
+			}
 			// read the response until the server closes (or give up after 30 simulated seconds)
 			conn.SetReadDeadline(time.Now().Add(600 * time.Second))
 			buf := make([]byte, 4096)
@@ -470,6 +509,10 @@ func runC16(c *runCtx) {
 		if res.closedBy == "client-early" {
 			continue
 		}
+		if res.spec.StallMs >= 9000 {
+			// a client that did not read for about the server's patience may find its answer cut short
+			continue
+		}
 		status, clen, body, wellFormed := parseHTTPResponse(res.resp)
 		if res.closedBy == "timeout" || !wellFormed {
 			c.violate("c16.response", "request %d (%s, sent completely: %v): answer %q is not one well-formed HTTP/1.1 response (closed by %s after %v)", i, res.class, res.sentAll, clip(res.resp), res.closedBy, res.ended-res.started)
@@ -550,7 +593,7 @@ func runC16(c *runCtx) {
 		}
 		complete := res.class == "post-valid" || res.class == "post-crlf" || res.class == "get"
 		if res.spec.Probe && res.ended-res.started > 30*time.Second {
-			c.violate("c16.slow_answer", "request %d (%s) was sent while the terminal was busy and its queue full; it was answered only after %v (each surplus request may take the accept loop 2 s, not until the command ends)", i, res.class, res.ended-res.started)
+			c.violate("c16.slow_answer", "request %d (%s) was sent while the terminal was busy with a command (its queue full) or another client was not reading its answer; it was answered only after %v (the accept loop may spend 2 s on each surplus request and some 10 s on a client that does not read, not until the command ends or the client wakes up)", i, res.class, res.ended-res.started)
 		}
 		if complete && res.alone && total == 0 && res.spec.Wait && res.ended-res.started > 8*time.Second {
 			c.violate("c16.slow_answer", "request %d (%s) was sent at once but answered only after %v", i, res.class, res.ended-res.started)
@@ -559,7 +602,7 @@ func runC16(c *runCtx) {
 	// a non-local listener without --listen-unsafe never runs process-executing actions from the network
 	if !local && !plan.Unsafe {
 		for _, p := range r.os.Snapshot() {
-			if p.Command == "EX 9" {
+			if p.Command == "EX 9" || p.Command == "EX 8" {
 				c.violate("c16.remote_exec", "non-local listener %s without --listen-unsafe: a POST spawned %q", plan.Addr, p.Command)
 				break
 			}
